@@ -24,6 +24,9 @@ MUTANTS = [
     dict(name='M23_retry_backoff', targets=['C12'], file=MGR,
          old="                await asyncio.sleep(retry_policy.delay)\n",
          new="                await asyncio.sleep(retry_policy.delay * (n_attempts - 1))\n"),
+    dict(name='M24_stale_switch_selection_across_iterations', targets=['C09', 'C11'], file='ml_pipeline_engine/dag/storage.py',
+         old="            self.switch_results.hide(node_id)\n",
+         new="            pass\n"),
     dict(name='M03_exception_filter_ignored', targets=['C12'], file=MGR,
          old="            except retry_policy.exceptions as error:  # noqa: PERF203\n",
          new="            except Exception as error:  # noqa: PERF203\n"),
